@@ -13,7 +13,11 @@
 // limitations under the License.
 package ipp
 
-import "github.com/honeytrap/honeytrap/services/decoder"
+import (
+	"fmt"
+
+	"github.com/honeytrap/honeytrap/services/decoder"
+)
 
 type attribGroup struct {
 	tag byte //begin-attribute-group-tag
@@ -52,6 +56,8 @@ func (ag *attribGroup) decode(dec decoder.Decoder) error {
 			v = &valInt{tag: vtag}
 		case nameWithoutLang:
 			v = &valStr{tag: vtag}
+		default:
+			return fmt.Errorf("Unsupported value tag: 0x%02x", vtag)
 		}
 
 		v.decode(dec)
